@@ -379,15 +379,15 @@ class CFG:
         return [n for n in self.nodes if any(l is loop_stmt for l in n.loops)]
 
 
-_cache = {}
-
-
 def cfg_of(funcinfo_or_node):
+    """CFG of a function, cached on the ast node itself (never in a global table: node ids are
+    recycled when several program versions are analysed in one process)."""
     node = getattr(funcinfo_or_node, "node", funcinfo_or_node)
-    k = id(node)
-    if k not in _cache:
-        _cache[k] = CFG(node)
-    return _cache[k]
+    c = getattr(node, "_sa_cfg", None)
+    if c is None:
+        c = CFG(node)
+        node._sa_cfg = c
+    return c
 
 
 def simple_statements(funcnode):
